@@ -419,6 +419,40 @@ def scan_ambient(files):
     return res
 
 
+# what an iteration site's order-independence argument additionally rests on: the text of these items is hashed with the
+# site (file of the site, function of the site) -> [(file, kind, name)]; each must exist exactly once (else: fail loudly)
+DEPENDS = {
+    ("src/expr/eval.rs", "hygienize_locals_for_asm_subst"): [("src/expr/eval.rs", "fn", "hygienize_name_for_asm_subst"),
+                                                            ("src/expr/eval.rs", "static", "ASM_HYGIENIZE_PREFIX")],
+    ("src/asm/resolver/eval_asm.rs", "resolve_once"): [("src/expr/eval.rs", "fn", "set_local")],
+    ("src/util/symbol_format.rs", "format_recursive"): [("src/util/item_ref.rs", "struct", "ItemRef"),
+                                                        ("src/util/symbol_manager.rs", "fn", "declare")],
+}
+
+
+def item_text(files, rel, kind, name):
+    f = next((x for x in files if x.rel == rel), None)
+    if f is None:
+        fail("dependency file %s not found" % rel)
+    if kind == "static":
+        ms = list(re.finditer(r"\bstatic\s+%s\b[^;]*;" % re.escape(name), f.code))
+        if len(ms) != 1:
+            fail("%s: expected exactly one `static %s`, found %d" % (rel, name, len(ms)))
+        return f.text[ms[0].start():ms[0].end()]
+    idxs = [i for i, r in enumerate(f.regions) if r[1] == kind and r[2] == name]
+    if len(idxs) != 1:
+        fail("%s: expected exactly one `%s %s`, found %d" % (rel, kind, name, len(idxs)))
+    a = f.regions[idxs[0]][0]
+    b = f.code.find("{" if kind == "fn" else "(", a)
+    semi = f.code.find(";", a)
+    if kind == "struct" and (b < 0 or (0 <= f.code.find("{", a) < b)):
+        b = f.code.find("{", a)
+    if b < 0:
+        fail("%s: no body for %s %s" % (rel, kind, name))
+    e = match_close(f.code, b, f.code[b], "}" if f.code[b] == "{" else ")", rel)
+    return f.text[a:e]
+
+
 # ------------------------------------------------------------------------------------------------ entry points
 def inventory(repo):
     rels = source_files(repo)
@@ -434,6 +468,9 @@ def inventory(repo):
         if key in seen:
             continue
         seen.add(key)
+        if kind.startswith("iter:"):
+            for dep in DEPENDS.get((f.rel, f.function(off)), []):
+                snip += "\n/* depends on %s %s %s */\n" % dep + item_text(files, *dep)
         rows.append({"file": f.rel, "function": f.function(off), "line": f.line_of(off), "kind": kind,
                      "hash": h16(snip), "snippet": snip})
     amb = [{"file": f.rel, "function": f.function(off), "line": f.line_of(off), "kind": kind, "hash": h16(line), "snippet": line.strip()}
@@ -473,7 +510,7 @@ def generate(repo):
     o.append("(* the iteration sites among them, with the text whose hash is taken (whitespace-normalised) *)")
     for r in inv["iteration_sites"]:
         o.append("(* %s  %s  %s  %s  line %d\n%s\n*)" % (r["file"], r["function"], r["kind"], r["hash"], r["line"],
-                                                        r["snippet"].replace("(*", "( *").replace("*)", "* )")))
+                                                        r["snippet"].replace("(*", "( *").replace("*)", "* )").replace('"', "'")))
     o.append("(* ambient state: statics, lazily initialised globals, interior mutability, time, randomness, environment, process,")
     o.append("   hashers, addresses, threads, directory listings, unsafe, Debug/pointer formatting: (file, function, kind, line hash) *)")
     o.append("Definition c10_ambient : list (string * string * string * string) := [")
